@@ -77,7 +77,7 @@ class C18(Check):
         return C.scenarios(scenario)
 
     def examples(self, tier):
-        return 9 if tier == "quick" else 250
+        return 5 if tier == "quick" else 250
 
     def budget_s(self, tier):
         return 600.0 if tier == "quick" else 1700.0
